@@ -60,6 +60,19 @@ def vis_leaf(mac, pl):
     return all(x == G.INTER for x in pl[0]) and (pl[1][0] == "glob" or (pl[1][0] in ("name", "rename") and pl[1][1] == mac))
 
 
+def self_valid(t, in_group=False):
+    """Rust accepts a `self` import only as a direct member of a braced list (E0429 otherwise)"""
+    if t is None:
+        return True
+    if t[0] in ("name", "rename"):
+        return t[1] != "self" or in_group
+    if t[0] == "path":
+        return self_valid(t[2], False)
+    if t[0] == "group":
+        return all(self_valid(x, True) for x in t[1])
+    return True
+
+
 def fsu_oracle(mac, t, real_p, real_t, cands, bits):
     """the specification of file_self_use + update (Coq fsu_post), evaluated on the REAL result: every name bound by an
     importing leaf is recognised afterwards and nothing else; all other leaves and the globs are kept"""
@@ -70,6 +83,8 @@ def fsu_oracle(mac, t, real_p, real_t, cands, bits):
         return False
     if vis and real_p not in binds:
         return False
+    if self_valid(t) and not self_valid(real_t):
+        return False           # the remaining import no longer compiles: `use a::self;`
     rest = sorted(G.leaf_str(pl) for pl in ls if not (vis_leaf(mac, pl) and pl[1][0] != "glob"))
     got = sorted(G.leaf_str(pl) for pl in G.ut_leaves(real_t)) if real_t is not None else []
     if rest != got:
@@ -85,7 +100,10 @@ def use_tree_part(rep, rng):
              ("path", G.INTER, ("path", G.INTER, ("name", "actor"))), ("name", "actor"), ("group", []),
              ("path", G.INTER, ("group", [("name", "actor"), ("rename", "actor", "a2"), ("glob",)])),
              ("path", G.INTER, ("group", [("rename", "actor", "act"), ("glob",), ("rename", "actor", "a2"), ("name", "family")])),
-             ("path", G.INTER, ("group", [("group", [("group", [("name", "actor")])])]))]
+             ("path", G.INTER, ("group", [("group", [("group", [("name", "actor")])])])),
+             ("path", G.INTER, ("group", [("name", "self"), ("name", "actor")])), ("path", G.INTER, ("group", [("name", "family"), ("rename", "self", "it")])),
+             ("path", G.INTER, ("group", [("name", "self"), ("name", "actor"), ("name", "family")])),
+             ("group", [("path", G.INTER, ("group", [("name", "actor"), ("name", "self")])), ("path", "std", ("name", "fmt"))])]
     for t in fixed:
         for mac in ("actor", "family"):
             cases.append((mac, t))
@@ -780,7 +798,7 @@ def replay(rep, path):
         (cls, f), = hook.run_batch([("fn:file_self_use", ["", j["macro"], use])])
         real_p = None if f[0] == "-" else f[0].replace(" ", "")
         real_t = None if f[1] == "-" else G.parse_use_tree([x.s for x in rs.lex(f[1])])
-        if not rep.oblige(cls == "VALUE" and fsu_oracle(j["macro"], t, real_p, real_t)):
+        if not rep.oblige(cls == "VALUE" and fsu_oracle(j["macro"], t, real_p, real_t, [], "")):
             rep.violation("replay_fsu", dict(j, observed_now=f), found=True)
     elif "uses" in j and "attribute" in j:
         (cls, f), = hook.run_batch([("fn:use_is", ["", j["macro"], "".join(u + "\n" for u in j["uses"]) + "fn f() {}\n", j["attribute"]])])
